@@ -631,7 +631,8 @@ def start_nodes(ctx: Ctx):
     # ---- start feasibility: envs whose FIRST-step mask is restricted by construction (OP: length budget; DPP / MDPP: keep-out and
     #      probe cells) need starts drawn from the mask's support on every path; `arange(k) % n (+ 1)` ignores the mask
     RESTRICTED_FIRST_MASK = {"op": "customers beyond the length budget are closed at the first step",
-                             "dpp": "keep-out and probe cells are closed", "mdpp": "keep-out and probe cells are closed"}
+                             "dpp": "keep-out and probe cells are closed", "mdpp": "keep-out and probe cells are closed",
+                             "svrp": "customers whose required skill exceeds the first (least skilled) technician's level are closed"}
 
     def consults_mask(v):
         for n_ in vg.walk(v):
